@@ -197,3 +197,15 @@ func switchCases(fn *ssa.Function, isSubject func(ssa.Value) bool) map[string]*s
 	}
 	return out
 }
+
+// fileOf returns the repo-relative file that defines f.
+func (g *GenPkg) fileOf(f *ssa.Function) string {
+	if f.Prog == nil || !f.Pos().IsValid() {
+		return ""
+	}
+	name := f.Prog.Fset.Position(f.Pos()).Filename
+	if i := strings.Index(name, "/repo/"); i >= 0 {
+		return name[i+len("/repo/"):]
+	}
+	return name
+}
